@@ -57,7 +57,12 @@ CMPS = ["==", "!=", "<", "<=", ">", ">="]
 
 
 class Scope:
-    """What a generated expression may refer to."""
+    """What a generated expression may refer to.
+
+    Steering for the open finding 'shared-network-leak' (known_findings.json): when `steer` is
+    on, a name that feeds a combinator with two or more wired sources is used nowhere else
+    (state 'burned'); names feeding only single-source combinators may be shared freely.
+    """
 
     def __init__(self):
         self.signals: list[str] = []  # Signal names (typed or untyped)
@@ -66,25 +71,9 @@ class Scope:
         self.cmp_names: list[str] = []  # names bound to a comparison
         self.bundles: list[str] = []
         self.used: set[str] = set()
-        self.linear = False  # steer: every name is consumed by at most one combinator
-        self.consumed: set[str] = set()
+        self.steer = False
+        self.state: dict[str, str] = {}  # name -> 'shared' | 'burned'
         self.steered = 0
-
-    def pick_signal(self, draw, pool=None):
-        """Choose a Signal name to reference; in linear mode a name is handed out once."""
-        pool = list(self.signals if pool is None else pool)
-        if self.linear:
-            free = [n for n in pool if n not in self.consumed]
-            if len(free) < len(pool):
-                self.steered += 1
-            if not free:
-                return None
-            n = draw(st.sampled_from(free))
-            self.consumed.add(n)
-            return n
-        if not pool:
-            return None
-        return draw(st.sampled_from(pool))
 
     def fresh(self, draw, prefix: str) -> str:
         i = 0
@@ -95,13 +84,32 @@ class Scope:
                 self.used.add(n)
                 return n
 
+    def pick(self, draw, pool, excl: bool):
+        """Choose a name to reference, respecting the steering discipline."""
+        pool = list(pool)
+        if not pool:
+            return None
+        if not self.steer:
+            return draw(st.sampled_from(pool))
+        if excl:
+            free = [n for n in pool if n not in self.state]
+        else:
+            free = [n for n in pool if self.state.get(n) != "burned"]
+        if len(free) < len(pool):
+            self.steered += 1
+        if not free:
+            return None
+        n = draw(st.sampled_from(free))
+        self.state[n] = "burned" if excl else "shared"
+        return n
+
 
 class ExprGen:
-    """Stateless scalar expressions over a scope. `profile` tunes the mix per property."""
+    """Stateless scalar expressions over a scope. Keyword options tune the mix per property."""
 
     def __init__(self, scope: Scope, palette: Palette, *, allow_logic=True, allow_cond=True,
                  allow_proj=True, allow_pow_shift=True, const_fold_ops=("+", "-", "*"),
-                 const_range=None, allow_typeof=True):
+                 const_range=None, allow_typeof=True, **_ignored):
         self.s = scope
         self.p = palette
         self.allow_logic = allow_logic
@@ -113,18 +121,18 @@ class ExprGen:
         self.allow_typeof = allow_typeof
 
     # -- constants ----------------------------------------------------------------------
-    def const_expr(self, draw, depth=1):
+    def const_expr(self, draw, depth=1, excl=True):
         """A compile-time integer expression kept inside a domain where every evaluation
         order / integer model agrees (C11 covers the rest)."""
         k = draw(st.integers(0, 5))
         if depth <= 0 or k <= 2:
             if self.s.ints and k == 0:
-                n = self.s.pick_signal(draw, self.s.ints)
+                n = self.s.pick(draw, self.s.ints, excl)
                 if n is not None:
                     return Ref(n)
             return draw(num(self.const_range))
         op = draw(st.sampled_from(list(self.const_fold_ops)))
-        return Bin(op, self.const_expr(draw, depth - 1), self.const_expr(draw, depth - 1))
+        return Bin(op, self.const_expr(draw, depth - 1, excl), self.const_expr(draw, depth - 1, excl))
 
     def type_lit(self, draw):
         typed = [n for n in self.s.signals if self.s.typed.get(n)]
@@ -133,38 +141,48 @@ class ExprGen:
         return draw(st.sampled_from(self.p.types))
 
     # -- leaves -------------------------------------------------------------------------
-    def leaf(self, draw, want_signal=False):
+    def leaf(self, draw, want_signal=False, excl=False):
         k = draw(st.integers(0, 9))
         if self.s.signals and (k <= 5 or want_signal):
-            n = self.s.pick_signal(draw)
+            n = self.s.pick(draw, self.s.signals, excl)
             if n is not None:
                 return Ref(n)
         if k == 6:
             return SigLit(self.type_lit(draw), self.const_expr(draw, 1))
         if self.s.ints and k == 7 and not want_signal:
-            n = self.s.pick_signal(draw, self.s.ints)
+            n = self.s.pick(draw, self.s.ints, excl)
             if n is not None:
                 return Ref(n)
         if want_signal:
             return SigLit(self.type_lit(draw), self.const_expr(draw, 0))
         return draw(num(int32() if k == 8 else small_int()))
 
+    def const_operand(self, draw):
+        return draw(num(int32() if draw(st.integers(0, 3)) == 0 else small_int()))
+
     # -- expressions --------------------------------------------------------------------
     def comparison(self, draw, depth):
-        l = self.expr(draw, depth - 1, want_signal=True)
-        r = self.expr(draw, depth - 1) if draw(st.booleans()) else draw(num(int32()))
+        if draw(st.booleans()):
+            l = self.expr(draw, depth - 1, want_signal=True, excl=False)
+            r = self.const_operand(draw)
+        else:
+            l = self.expr(draw, depth - 1, want_signal=True, excl=True)
+            r = self.expr(draw, depth - 1, want_signal=True, excl=True)
         return Bin(draw(st.sampled_from(CMPS)), l, r)
 
     def condition(self, draw, depth):
         """What may stand before ':' : a comparison, an &&/|| chain of simple comparisons, or a
-        name bound to a comparison."""
+        name bound to a comparison.  Every leaf is exclusive (the decider also reads the value)."""
         k = draw(st.integers(0, 9))
         if self.s.cmp_names and k == 0:
-            n = self.s.pick_signal(draw, self.s.cmp_names)
+            n = self.s.pick(draw, self.s.cmp_names, True)
             if n is not None:
                 return Ref(n)
         if k <= 6 or not self.allow_logic:
-            return self.comparison(draw, min(depth, 2))
+            l = self.expr(draw, min(depth, 2) - 1, want_signal=True, excl=True)
+            r = self.const_operand(draw) if draw(st.booleans()) else self.expr(
+                draw, min(depth, 2) - 1, want_signal=True, excl=True)
+            return Bin(draw(st.sampled_from(CMPS)), l, r)
         op = draw(st.sampled_from(["&&", "||"]))
         n = draw(st.integers(2, 3))
         e = self.simple_comparison(draw)
@@ -173,28 +191,33 @@ class ExprGen:
         return e
 
     def simple_comparison(self, draw):
-        l = self.leaf(draw, want_signal=True)
-        r = self.leaf(draw, want_signal=True) if draw(st.integers(0, 3)) == 0 else draw(num(int32()))
+        l = self.leaf(draw, want_signal=True, excl=True)
+        r = self.leaf(draw, want_signal=True, excl=True) if draw(st.integers(0, 3)) == 0 else self.const_operand(draw)
         return Bin(draw(st.sampled_from(CMPS)), l, r)
 
-    def expr(self, draw, depth, want_signal=False):
+    def expr(self, draw, depth, want_signal=False, excl=False):
         if depth <= 0:
-            return self.leaf(draw, want_signal)
+            return self.leaf(draw, want_signal, excl)
         k = draw(st.integers(0, 19))
         if k <= 1:
-            return self.leaf(draw, want_signal)
+            return self.leaf(draw, want_signal, excl)
         if k <= 8:
             op = draw(st.sampled_from(ARITH_SAFE))
-            l = self.expr(draw, depth - 1, want_signal=want_signal)
-            r = self.expr(draw, depth - 1)
-            return Bin(op, l, r)
+            shape = draw(st.integers(0, 5))
+            if shape <= 1:  # signal OP constant: single-source combinator
+                return Bin(op, self.expr(draw, depth - 1, want_signal=True), self.const_operand(draw))
+            if shape == 2:  # constant OP signal
+                return Bin(op, self.const_operand(draw), self.expr(draw, depth - 1, want_signal=True))
+            return Bin(op, self.expr(draw, depth - 1, want_signal=True, excl=True),
+                       self.expr(draw, depth - 1, want_signal=True, excl=True))
         if k == 9 and self.allow_pow_shift:
             op = draw(st.sampled_from(["<<", ">>", "**"]))
-            l = self.expr(draw, depth - 1, want_signal=want_signal)
             if draw(st.booleans()):
+                l = self.expr(draw, depth - 1, want_signal=True)
                 r = Num(draw(st.integers(0, 31) if op != "**" else st.integers(0, 6)))
             else:
-                r = Bin("AND", self.expr(draw, depth - 1, want_signal=True), Num(31 if op != "**" else 7))
+                l = self.expr(draw, depth - 1, want_signal=True, excl=True)
+                r = Bin("AND", self.expr(draw, depth - 1, want_signal=True, excl=True), Num(31 if op != "**" else 7))
             return Bin(op, l, r)
         if k <= 11:
             return self.comparison(draw, depth)
@@ -205,30 +228,28 @@ class ExprGen:
                 for _ in range(draw(st.integers(1, 2))):
                     e = Bin(op, e, self.simple_comparison(draw))
                 return e
-            return Bin(op, self.expr(draw, depth - 1, want_signal=True), self.expr(draw, depth - 1, want_signal=True))
+            return Bin(op, self.expr(draw, depth - 1, want_signal=True, excl=True),
+                       self.expr(draw, depth - 1, want_signal=True, excl=True))
         if k == 13:
             uop = draw(st.sampled_from(["-", "!", "-", "+"] if self.allow_logic else ["-", "+"]))
-            return Un(uop, self.expr(draw, depth - 1, want_signal=True))
+            return Un(uop, self.expr(draw, depth - 1, want_signal=True, excl=excl))
         if k <= 15 and self.allow_proj:
-            return Proj(self.expr(draw, depth - 1), self.type_lit(draw))
+            return Proj(self.expr(draw, depth - 1, want_signal=False, excl=excl), self.type_lit(draw))
         if k <= 17 and self.allow_cond:
             c = self.condition(draw, depth - 1)
-            vk = draw(st.integers(0, 3))
-            if vk == 0:
-                v = draw(num(int32()))
-            elif vk == 1 and self.s.signals and not self.s.linear:
-                v = Ref(draw(st.sampled_from(self.s.signals)))
+            if draw(st.integers(0, 2)) == 0:
+                v = self.const_operand(draw)
             else:
-                v = self.expr(draw, depth - 1, want_signal=True)
+                v = self.expr(draw, depth - 1, want_signal=True, excl=True)
             return Cond(c, v)
         if k == 18:
-            return Paren(self.expr(draw, depth - 1, want_signal=want_signal))
-        if draw(st.booleans()) and self.s.signals:
-            n = self.s.pick_signal(draw)  # the same source on both operands of one combinator
+            return Paren(self.expr(draw, depth - 1, want_signal=want_signal, excl=excl))
+        if self.s.signals:
+            n = self.s.pick(draw, self.s.signals, excl)  # the same source on both operands of one combinator
             if n is not None:
                 return Bin(draw(st.sampled_from(["+", "-", "*", "XOR", ">=", "!="])), Ref(n), Ref(n))
-        return Bin(draw(st.sampled_from(["+", "-", "*"])), self.expr(draw, depth - 1, want_signal=want_signal),
-                   self.leaf(draw))
+        return Bin(draw(st.sampled_from(["+", "-", "*"])), self.expr(draw, depth - 1, want_signal=True),
+                   self.const_operand(draw))
 
 
 def is_comparison(e) -> bool:
@@ -241,11 +262,11 @@ def is_comparison(e) -> bool:
 def scalar_program(draw, early_virtual=False, linear=False, max_stmts=8, max_depth=3, **profile):
     """Stateless program: inputs, int constants, then a DAG of Signal declarations."""
     sc = Scope()
-    sc.linear = linear
+    sc.steer = linear
     pal = Palette(early_virtual)
     g = ExprGen(sc, pal, **profile)
     stmts = []
-    n_in = draw(st.integers(2, 7) if linear else st.integers(1, 4))
+    n_in = draw(st.integers(2, 6) if linear else st.integers(1, 4))
     same_type = draw(st.integers(0, 3)) == 0  # force same-typed operands (two-colour separation)
     shared = draw(st.sampled_from(pal.types))
     untyped_ok = draw(st.integers(0, 2)) == 0
@@ -261,7 +282,7 @@ def scalar_program(draw, early_virtual=False, linear=False, max_stmts=8, max_dep
         sc.signals.append(name)
     for _ in range(draw(st.integers(0, 2))):
         name = sc.fresh(draw, "k")
-        stmts.append(Decl("int", name, g.const_expr(draw, 1)))
+        stmts.append(Decl("int", name, g.const_expr(draw, 1, excl=False)))
         sc.ints.append(name)
     n = draw(st.integers(1, max_stmts))
     for _ in range(n):
@@ -272,8 +293,7 @@ def scalar_program(draw, early_virtual=False, linear=False, max_stmts=8, max_dep
         sc.typed[name] = False  # conservative: .type only of declared inputs
         if is_comparison(e):
             sc.cmp_names.append(name)
-    prog = Program(tuple(stmts))
-    return (prog, sc.steered) if profile.get('_want_stats') else prog
+    return Program(tuple(stmts))
 
 
 @st.composite
@@ -291,3 +311,153 @@ def print_opts(draw):
 
 __all__ = [n for n in dir() if not n.startswith("_")]
 assert AllOf and AnyOf and Assign and BLit and BSel and Place and PropRead
+
+
+# ------------------------------------------------------------------------------------------
+# Bundles (C02)
+# ------------------------------------------------------------------------------------------
+
+ALL_ARITH = ["+", "-", "*", "/", "%", "**", "<<", ">>", "AND", "OR", "XOR"]
+
+
+@st.composite
+def bundle_program(draw, early_virtual=True, steer=True, max_stmts=6):
+    """Stateless programs over bundle literals, each-arithmetic, filters, gating, any/all, selection."""
+    sc = Scope()
+    sc.steer = steer
+    pal = Palette(early_virtual)
+    stmts = []
+    types = list(draw(st.permutations(pal.types)))
+    in_type: dict[str, str] = {}
+    n_in = draw(st.integers(3, 8))
+    for _ in range(n_in):
+        name = sc.fresh(draw, "in")
+        ty = types.pop()
+        stmts.append(Decl("Signal", name, SigLit(ty, draw(num(small_int())))))
+        sc.signals.append(name)
+        sc.typed[name] = True
+        in_type[name] = ty
+    btypes: dict[str, set] = {}  # bundle name -> possible member types
+
+    def scalar_operand(excl_other):
+        """Returns (expr, is_signal)."""
+        k = draw(st.integers(0, 3))
+        if k == 0 and sc.signals:
+            n = sc.pick(draw, sc.signals, True)
+            if n is not None:
+                return Ref(n), True
+        return draw(num(int32() if k == 1 else small_int())), False
+
+    def new_literal():
+        elems, tys = [], set()
+        for _ in range(draw(st.integers(0, 4))):
+            k = draw(st.integers(0, 5))
+            if k <= 2:
+                cands = [n for n in sc.signals if in_type.get(n) and in_type[n] not in tys]
+                n = sc.pick(draw, cands, True)
+                if n is not None:
+                    elems.append(Ref(n))
+                    tys.add(in_type[n])
+                    continue
+            if k == 3 and sc.bundles:
+                cands = [b for b in sc.bundles if not (btypes[b] & tys)]
+                b = sc.pick(draw, cands, True)
+                if b is not None:
+                    elems.append(Ref(b))
+                    tys |= btypes[b]
+                    continue
+            if k == 4:
+                cands = [n for n in sc.signals if in_type.get(n) and in_type[n] not in tys]
+                n = sc.pick(draw, cands, False)
+                if n is not None:  # computed member: keeps the input's type
+                    elems.append(Bin(draw(st.sampled_from(["+", "*", "-"])), Ref(n), draw(num(small_int()))))
+                    tys.add(in_type[n])
+                    continue
+            free = [t for t in types if t not in tys]
+            if free:
+                t = draw(st.sampled_from(free))
+                elems.append(SigLit(t, draw(num(small_int()))))
+                tys.add(t)
+        return BLit(tuple(elems)), tys
+
+    def arith_rhs(op):
+        if op in ("<<", ">>"):
+            return Num(draw(st.integers(0, 31))), False
+        if op == "**":
+            return Num(draw(st.integers(0, 5))), False
+        return scalar_operand(True)
+
+    n = draw(st.integers(1, max_stmts))
+    lit, tys = new_literal()
+    b0 = sc.fresh(draw, "b")
+    stmts.append(Decl("Bundle", b0, lit))
+    sc.bundles.append(b0)
+    btypes[b0] = tys
+    for _ in range(n):
+        k = draw(st.integers(0, 11))
+        if k == 0:
+            lit, tys = new_literal()
+            name = sc.fresh(draw, "b")
+            stmts.append(Decl("Bundle", name, lit))
+            sc.bundles.append(name)
+            btypes[name] = tys
+            continue
+        if k <= 3:  # each-arithmetic
+            op = draw(st.sampled_from(ALL_ARITH))
+            rhs, is_sig = arith_rhs(op)
+            b = sc.pick(draw, sc.bundles, is_sig)
+            if b is None:
+                continue
+            name = sc.fresh(draw, "b")
+            stmts.append(Decl("Bundle", name, Bin(op, Ref(b), rhs)))
+            sc.bundles.append(name)
+            btypes[name] = set(btypes[b])
+            continue
+        if k <= 5:  # filter
+            rhs, is_sig = scalar_operand(True)
+            b = sc.pick(draw, sc.bundles, is_sig)
+            if b is None:
+                continue
+            out = Ref(b) if draw(st.booleans()) else draw(num(small_int()))
+            name = sc.fresh(draw, "b")
+            stmts.append(Decl("Bundle", name, Cond(Bin(draw(st.sampled_from(CMPS)), Ref(b), rhs), out)))
+            sc.bundles.append(name)
+            btypes[name] = set(btypes[b])
+            continue
+        if k == 6:  # gating
+            s = sc.pick(draw, sc.signals, True)
+            b = sc.pick(draw, sc.bundles, True)
+            if s is None or b is None:
+                continue
+            name = sc.fresh(draw, "b")
+            stmts.append(Decl("Bundle", name, Cond(Bin(draw(st.sampled_from(CMPS)), Ref(s), draw(num(small_int()))), Ref(b))))
+            sc.bundles.append(name)
+            btypes[name] = set(btypes[b])
+            continue
+        if k <= 8:  # any / all
+            rhs, is_sig = scalar_operand(True)
+            b = sc.pick(draw, sc.bundles, is_sig)
+            if b is None:
+                continue
+            q = AnyOf(Ref(b)) if draw(st.booleans()) else AllOf(Ref(b))
+            name = sc.fresh(draw, "q")
+            stmts.append(Decl("Signal", name, Bin(draw(st.sampled_from(CMPS)), q, rhs)))
+            continue
+        if k <= 10:  # selection
+            b = sc.pick(draw, [x for x in sc.bundles if btypes[x]], False)
+            if b is None:
+                continue
+            t = draw(st.sampled_from(sorted(btypes[b])))
+            name = sc.fresh(draw, "s")
+            e = BSel(Ref(b), t)
+            if draw(st.booleans()):
+                e = Bin(draw(st.sampled_from(["+", "*", "-", ">"])), e, draw(num(small_int())))
+            stmts.append(Decl("Signal", name, e))
+            continue
+        b = sc.pick(draw, sc.bundles, False)  # alias
+        if b is not None:
+            name = sc.fresh(draw, "b")
+            stmts.append(Decl("Bundle", name, Ref(b)))
+            sc.bundles.append(name)
+            btypes[name] = set(btypes[b])
+    return Program(tuple(stmts))
